@@ -37,6 +37,15 @@ CHECKS = {
  'C15': ('E1 product', 'bounded-exhaustive enumeration of structure shapes, each written, parsed by two independent readers, re-read and re-written, plus a hand-written read-side menu',
          '5 cells x 4 coordinate menus (generic, grid, outside, boundary) x 7 term shapes incl. impropers x 0/1/2 extra columns per kind x charges x fractional/Cartesian: independent tokenizer and ase.io.read agree with the text; re-read reproduces elements, cell parameters, fractional coordinates mod 1, charges, terms, extra columns; T2==T1 for in-cell inputs, T3==T2 always; 11 hand-written files (uncertainties, Cartesian, H-M names accepted/rejected, wrap).',
          'Installed PyCifRW 5.0.1 / ase 3.29. Cartesian output only for standard-orientation cells. Trusted: mc/ref/cif.py, ase.io.read.', '3/C15'),
+ 'C01': ('E1+E2', 'bounded-exhaustive enumeration of (cell, pattern, pose, placement, decoy, tolerance, noise, hints) with stateless exploration of every random-draw answer; per-match rigid-image oracle',
+         'Complete sub-products of 6 cells x 11 patterns (1-7 atoms; symmetric, collinear, planar, chiral) x 9/20 poses (cube rotations incl. antiparallel flips, near-degenerate, generic) x boundary-crossing placements x 6 decoy kinds x 3 tolerances x noise, multi-copy layouts, and every valid hint form (index 0 included); every answer of random.choice / np.random.random within deviation bound 1 (quick) / 2 (thorough). Each reported match: distinct in-range indices, pattern elements in order, positions = stored + lattice vector, returned proper rotation + best translation within atol, never OUT (mirror images), return arrays consistent.',
+         'Coverage over the finite menus, not R^3. Draw trees are cut at the deviation bound / 60 (quick) or 300 (thorough) executions per scenario; the evidence counts bounded_out alternatives. Trusted: numpy, scipy Rotation.', '3/C01, 2'),
+ 'C02': ('E1+E2', 'same enumeration as C01 against a brute-force periodic reference matcher with IN/GRAY/OUT classes',
+         'For every scenario and draw answer: IN <= reported <= IN u GRAY as sets of sorted unit-cell index tuples, no group twice; reference = all ordered image tuples over images -2..2 with Kabsch fits; planted copies are asserted IN (generator guard).',
+         'Same menus as C01 without hints. GRAY groups (none occur on the generated menus) may be reported or not. Trusted: mc/ref/geom.py (self-tested).', '3/C02, 2'),
+ 'C03': ('E1+E2', 'metamorphic enumeration: every base structure x relation menu (shift-and-wrap, permutation, pattern motion, hint forms, draw answers, supercells), generated and real MOF files',
+         '792 (quick) / 4752 (thorough) base structures x 4/10 shifts, permutations (all n! for <=5 atoms), 3/8 pattern motions, every valid hint form for patterns <=4/5 atoms, every draw answer within the bound, supercells ({1,2,3}^3 for <=6 atoms in thorough); plus uio66, uio66-triclinic, hkust-1 with linker / benzene / metal-centre / single-atom patterns. Canonical match sets may differ only in groups that are GRAY by their measured deviation; supercell counts exactly a*b*c per occurrence.',
+         'Differences are excused only when c*eps > 0.8 atol for the measured Kabsch deviation eps (binding for all exact and low-noise copies). Trusted: numpy.', '3/C03, 2'),
 }
 
 NOT_YET = {}
